@@ -78,7 +78,7 @@ func buildSwitch(g *spec.Gen, kinds []int) *spec.Switch {
 	return sw
 }
 
-const nSwitchContexts = 6
+const nSwitchContexts = 8
 
 // inContext embeds a switch into one of the contexts; returns the script body
 // and the vars that must be pinned to enter it.
@@ -105,8 +105,27 @@ func inContext(g *spec.Gen, sw *spec.Switch, ctxKind int) (*spec.Block, map[stri
 		}}
 		pins[o] = 1
 		return blk(outer, marker(g, "after")), pins
-	default:
+	case 5:
 		return blk(&spec.While{ID: g.Prog.NewID(), Body: blk(sw, &spec.If{ID: g.Prog.NewID(), Arms: []*spec.Arm{{Cond: flag("FLAG_Q"), Body: blk(&spec.Break{ID: g.Prog.NewID()})}}}, marker(g, "again"))}), pins
+	case 6:
+		// the switch is the single statement of the selected colon-form case of a poryswitch
+		g.Prog.Switches["CTXKEY"] = "PICK"
+		ps := &spec.PorySwitch{ID: g.Prog.NewID(), Key: "CTXKEY", Cases: []*spec.PSCase{
+			{Name: "OTHER", Brace: true, Body: blk(marker(g, "unselected"))},
+			{Name: "PICK", Body: blk(sw)},
+			{Name: "_", Body: blk(marker(g, "fallback"))}}}
+		return blk(marker(g, "before"), ps, marker(g, "after")), pins
+	default:
+		// the switch is the first statement of the `_` brace-form case of a poryswitch nested in another one
+		g.Prog.Switches["CTXKEY"] = "NOSUCH"
+		g.Prog.Switches["CTXKEY2"] = "B"
+		inner := &spec.PorySwitch{ID: g.Prog.NewID(), Key: "CTXKEY", Cases: []*spec.PSCase{
+			{Name: "PICK", Body: blk(marker(g, "unselected"))},
+			{Name: "_", Brace: true, Body: blk(sw, marker(g, "inner_after"))}}}
+		outer := &spec.PorySwitch{ID: g.Prog.NewID(), Key: "CTXKEY2", Cases: []*spec.PSCase{
+			{Name: "A", Brace: true, Body: blk()},
+			{Name: "B", Brace: true, Body: blk(inner)}}}
+		return blk(outer, marker(g, "after")), pins
 	}
 }
 
@@ -159,11 +178,21 @@ func checkSwitchProgram(k *h.Case, prog *spec.Program, cands []int, pins map[str
 func checkSwitchProgramX(k *h.Case, prog *spec.Program, cands []int, pins map[string]int, nBase int, full bool) bool {
 	pr := layoutOf(k, prog, 0.15)
 	k.SetSource(pr.Src)
+	src := prog
+	if len(prog.Switches) > 0 {
+		// poryswitch contexts: the reference runs the program with the selected cases substituted by hand
+		rp, err := spec.Resolve(prog, prog.Switches)
+		if err != nil {
+			k.C.Inconclusive("the switch context does not resolve: %v", err)
+			return false
+		}
+		prog = rp
+	}
 	sc := scriptsOf(prog)[0]
 	var sws []*spec.Switch
 	switchesIn(sc.Body, &sws)
 	for _, opt := range []bool{true, false} {
-		res := h.Compile(pr.Src, optsOf(prog, opt))
+		res := h.Compile(pr.Src, optsOf(src, opt))
 		k.Count("evaluations", 1)
 		if !res.OK() {
 			k.Count("rejected", 1)
@@ -323,17 +352,25 @@ func runC03(ctx *h.Ctx) int {
 				return
 			}
 			k.Count("accepted", 1)
-			if !vmCheck(k, prog, res.Out, vmCheckOpts{NStates: 14, Cands: []int{0, 1, 2, 3, 4, 5, 6}, Orig: prog, Optimize: opt}, fmt.Sprintf("optimize=%v", opt)) {
+			rp := prog
+			if len(prog.Switches) > 0 {
+				var err error
+				if rp, err = spec.Resolve(prog, prog.Switches); err != nil {
+					k.C.Inconclusive("the switch context does not resolve: %v", err)
+					return
+				}
+			}
+			if !vmCheck(k, rp, res.Out, vmCheckOpts{NStates: 14, Cands: []int{0, 1, 2, 3, 4, 5, 6}, Orig: prog, Optimize: opt}, fmt.Sprintf("optimize=%v", opt)) {
 				return
 			}
 		}
 		k.Count("files_with_several_switch_scripts", 1)
 		k.Nontrivial("multi", cx, fmt.Sprint(kindsAll))
 	})
-	ctx.Exhaustive("case lists", int64(len(lists)), fmt.Sprintf("every list of 1..%d entries over {case empty, case body, body+break, break in the middle, break inside nested if, default empty, default body} with at most one default, each in %d contexts (alone, between commands, in while, in do-while, inside an outer switch case, in a condition-less while)", maxLen, nSwitchContexts))
+	ctx.Exhaustive("case lists", int64(len(lists)), fmt.Sprintf("every list of 1..%d entries over {case empty, case body, body+break, break in the middle, break inside nested if, default empty, default body} with at most one default, each in %d contexts (alone, between commands, in while, in do-while, inside an outer switch case, in a condition-less while, as the colon-form case of a poryswitch, in the `_` case of a nested poryswitch)", maxLen, nSwitchContexts))
 	rejectGuard(ctx, 0.05)
 	return ctx.Finish(
-		"switch statements: random case lists (<=8 entries, default anywhere, empty/non-empty bodies, break anywhere, nested) inside random scripts, plus the complete enumeration of small case lists in 6 contexts; each run for every case value and one value matching nothing, under 3 base states; command trace and terminal compared with the reference (first matching case, else default wherever written; body-less entry shares the next non-empty body; trailing body-less entries do nothing; no fall-through; break leaves the switch). distinct = distinct case-list signature",
+		"switch statements: random case lists (<=8 entries, default anywhere, empty/non-empty bodies, break anywhere, nested) inside random scripts, plus the complete enumeration of small case lists in 8 contexts; each run for every case value and one value matching nothing, under 3 base states; command trace and terminal compared with the reference (first matching case, else default wherever written; body-less entry shares the next non-empty body; trailing body-less entries do nothing; no fall-through; break leaves the switch). distinct = distinct case-list signature",
 		ctx.N(200, 2000),
 		[]string{"case values are mapped to integers injectively (numeric literals by value, symbols by hash)"})
 }
